@@ -13,6 +13,7 @@ import collections
 import hashlib
 import queue as _rqueue
 import random
+import zlib
 import sys
 import threading as _rt
 import time as _rtime
@@ -71,6 +72,16 @@ class RandomChooser(object):
         # yield points inside scripted user code (callables, map / poll / cancel functions, policies,
         # done-callbacks) are where the library is re-entered or raced by design: extra chance of a switch
         self.user_q = cfg.get("user_q", 0.0)
+        if self.strategy == "site":
+            # site-directed: a seed-dependent subset of the library's source lines (about one in
+            # site_mod) is "hot"; the first few times any thread reaches a hot line it is pre-empted.
+            # A defect that needs a pre-emption at one particular place costs ~1/site_mod per run
+            # instead of (window / run length) under uniform placement.
+            self.line_q = 1.0
+            self.site_mod = int(cfg.get("site_mod", 150))
+            self.site_salt = seed
+            self.site_hits = {}
+            self.site_hot = {}
         if self.strategy == "rd":
             # race-directed: a thread about to acquire a lock may be held back until another
             # thread arrives at the same lock (then a coin decides who goes first) - places two
@@ -113,6 +124,25 @@ class RandomChooser(object):
                     others = [t for t in cands if t is not cur]
                     if others:
                         return others[rng.randrange(len(others))]
+                return cur
+            return cands[rng.randrange(len(cands))]
+        if s == "site":
+            if cur is not None and cur.status == RUNNABLE:
+                why = self.cur_why
+                if isinstance(why, tuple):
+                    hot = self.site_hot.get(why)
+                    if hot is None:
+                        # loop back-edges (iteration over a container another thread may be editing)
+                        # are eight times as likely to be hot as ordinary line starts
+                        mod = max(self.site_mod // 8, 4) if len(why) > 2 else self.site_mod
+                        hot = self.site_hot[why] = (zlib.crc32(("%s:%s:%d" % (why[0], why[1], self.site_salt)).encode()) % mod == 0)
+                    if hot:
+                        k = self.site_hits.get(why, 0)
+                        if k < 3:
+                            self.site_hits[why] = k + 1
+                            others = [t for t in cands if t is not cur]
+                            if others:
+                                return others[rng.randrange(len(others))]
                 return cur
             return cands[rng.randrange(len(cands))]
         if s == "rd":
@@ -566,6 +596,7 @@ class Sim(object):
             me = self.cur
             cands = [t for t in self.threads if t.status == RUNNABLE]
             if len(cands) > 1:
+                self.chooser.cur_why = site
                 nxt = self._choose(cands, site)
                 if nxt is not me:
                     self.preemptions += 1
